@@ -9,7 +9,8 @@ for d in seeded/${1:-}*/; do
   checks=$(python3 -c "
 import json,re,sys
 m=json.load(open('$d/meta.json'))
-print(' '.join(dict.fromkeys(re.findall(r'\bC\d\d\b', m['caught_by']))))")
+txt=re.split(r'(?i)\b(not by|not caught|rarely caught|only with|does not reach)\b', m['caught_by'])[0]
+print(' '.join(dict.fromkeys(re.findall(r'\bC\d\d\b', txt))))")
   envs=$(python3 -c "
 import json
 m=json.load(open('$d/meta.json'))
